@@ -122,8 +122,16 @@ def device_schema(periods, dev="ecu"):
     return "\n".join(lines) + "\n"
 
 
+# periods at and beyond the 32 bits of the scheduler's time: 2^31 and 2^32-1 can still elapse, 2^32 and more never can
+BIG_PERIOD_DEVICES = (((1 << 31), 2), ((1 << 32) - 1,), ((1 << 32) - 1, 1), ((1 << 32),), ((1 << 32) + 10, 3), (None, (1 << 32) + 10))
+
+
 def delta_alphabet(periods):
     ps = sorted({p for p in periods if p not in (None, -1)})
+    if any(p >= (1 << 31) for p in ps):
+        # a small alphabet: the half range, what the period would be if it were cut to 32 bits, and the small periods themselves
+        d = {0, 1, 10, (1 << 31)} | {p % (1 << 32) for p in ps}
+        return sorted(x for x in d if 0 <= x < (1 << 32) and x != WRAP) + [WRAP]
     d = {0, 1}
     for p in ps:
         d |= {p - 1, p, p + 1, 2 * p}
@@ -150,7 +158,7 @@ def devices(tier):
         out = keep
     else:
         out = [ps for ps in out if len(ps) <= 3 or set(ps) <= {None, 1, 3}]
-    return out
+    return out + list(BIG_PERIOD_DEVICES)
 
 
 def build_device(periods, work):
